@@ -2,7 +2,10 @@
 
 package flyt
 
-import "context"
+import (
+	"context"
+	"fmt"
+)
 
 // C07 — batch processes every item exactly once, with per-item retry and fallback (continue mode).
 
@@ -18,7 +21,7 @@ type c07Mon struct {
 }
 
 func VH_C07_batch() {
-	vUnwind(10)
+	vUnwind(24)
 	m := &c07Mon{}
 	bConfig(&m.bMon)
 	m.minStarts = 1
@@ -39,6 +42,11 @@ func VH_C07_batch() {
 			vAssert(m.attempts[k] <= N, "item-attempts-within-budget")
 			if vNondetK[bool]("fail", k*10+m.attempts[k]) {
 				m.lastErr[k] = &vError{id: 500 + k*10 + m.attempts[k]}
+				if vParam("errForms", 0) > 0 && vNondetK[bool]("ctxLookingError", k*10+m.attempts[k]) {
+					// the item's own inner timeout: still just a failed attempt
+					m.lastErr[k] = fmt.Errorf("inner call: %w", context.DeadlineExceeded)
+					vCover("attempt-error-wraps-a-context-error")
+				}
 				err = m.lastErr[k]
 			} else {
 				m.okAt[k] = m.attempts[k]
